@@ -17,8 +17,8 @@ type c12 struct{ fw.Base }
 func init() { fw.Register(c12{}) }
 
 const (
-	quickHistories    = 1700
-	thoroughHistories = 30000
+	quickHistories    = 4000
+	thoroughHistories = 60000
 )
 
 func (c12) ID() string             { return "C12" }
